@@ -144,93 +144,115 @@ func runC05(ctx *h.Ctx) int {
 		}
 		g := spec.NewGen(k.R, p)
 		prog := g.FullProgram(1 + k.R.IntN(4))
-		rp, rerr := spec.Resolve(prog, prog.Switches)
 		pr := layoutOf(k, prog, 0.15)
 		k.SetSource(pr.Src)
-		ro := h.Compile(pr.Src, optsOf(prog, true))
-		rn := h.Compile(pr.Src, optsOf(prog, false))
-		k.Count("evaluations", 2)
-		if ro.OK() != rn.OK() {
-			k.Violation("accept-differs", fmt.Sprintf("optimize=true: %q, optimize=false: %q", ro.ErrString(), rn.ErrString()), nil)
-			return
-		}
-		if !ro.OK() {
-			k.Count("rejected", 1)
-			if ro.ErrString() != rn.ErrString() {
-				k.Violation("error-differs", fmt.Sprintf("errors differ: optimize=true %q, optimize=false %q", ro.ErrString(), rn.ErrString()), nil)
+		kk, probe := k.Dry()
+		c05Eval(kk, prog, pr.Src, g.Cands(), ctx.N(6, 16))
+		if len(probe.Keys) > 0 {
+			// a violation: reduce the program first, then report with the reduced witness attached
+			key := probe.Keys[0]
+			msg := probe.Msgs[0]
+			if msrc, mmsg := shrinkFor(k, prog, key, func(k2 *h.Case, src string) { c05Eval(k2, prog, src, g.Cands(), ctx.N(6, 16)) }); msrc != "" {
+				msg += "\nreduced witness:\n" + msrc + "--- " + mmsg
+				ro, rn := h.Compile(msrc, optsOf(prog, true)), h.Compile(msrc, optsOf(prog, false))
+				k.Violation(key, msg, map[string]interface{}{"minimal_source": msrc, "minimal_optimized": ro.Out, "minimal_unoptimized": rn.Out})
+			} else {
+				k.Violation(key, msg, nil)
 			}
 			return
 		}
-		if rerr != nil {
-			return
-		}
-		k.Count("accepted", 1)
-		vo, err1 := viewOf(rp, ro.Out)
-		vn, err2 := viewOf(rp, rn.Out)
-		if err1 != nil || err2 != nil {
-			k.Violation("entry-label", fmt.Sprintf("%v / %v", err1, err2), map[string]interface{}{"optimized": ro.Out, "unoptimized": rn.Out})
-			return
-		}
-		det := map[string]interface{}{"optimized": ro.Out, "unoptimized": rn.Out}
-		// (b) data and user-visible labels
-		if a, b := vo.nonScriptText(), vn.nonScriptText(); a != b {
-			k.Violation("data-differs", "text/movement/mart/map-script tables/raw differ between optimize on and off", det)
-			return
-		}
-		if a, b := userVisibleLabels(vo, rp), userVisibleLabels(vn, rp); !eqStrings(a, b) {
-			k.Violation("labels-differ", fmt.Sprintf("user-visible labels differ: optimized %v, unoptimized %v", a, b), det)
-			return
-		}
-		// (d), (e)
-		if !redundancyCheck(k, rp, vo, ro.Out, "optimize=true") || !redundancyCheck(k, rp, vn, rn.Out, "optimize=false") {
-			return
-		}
-		gotoO, gotoN := 0, 0
-		for _, s := range scriptsOf(rp) {
-			so, sn := vo.secs[s.Entry], vn.secs[s.Entry]
-			// (c)
-			if a, b := instrMultiset(vo, so), instrMultiset(vn, sn); !eqStrings(a, b) {
-				k.Violation("instr-multiset", fmt.Sprintf("script %s: instructions other than goto differ between optimize on and off\n optimized:   %v\n unoptimized: %v", s.Entry, a, b), det)
-				return
-			}
-			for i := so.Start; i < so.End; i++ {
-				if vo.f.Lines[i].Op == "goto" {
-					gotoO++
-				}
-			}
-			for i := sn.Start; i < sn.End; i++ {
-				if vn.f.Lines[i].Op == "goto" {
-					gotoN++
-				}
-			}
-			// (a) behaviour
-			ut := userTargetsOf(rp)
-			vmo := &asm.VM{F: vo.f, Sec: so, UserTargets: ut}
-			vmn := &asm.VM{F: vn.f, Sec: sn, UserTargets: ut}
-			for si := 0; si < ctx.N(6, 16); si++ {
-				st := &ref.HashState{Seed: h.Hash64(k.C.Seed, k.Sub, k.Index, s.Entry, si), Cands: g.Cands()}
-				to, tn := vmo.Run(st), vmn.Run(st)
-				k.Count("vm_runs", 2)
-				a, b := normFull(to), normFull(tn)
-				if !eqStrings(a, b) || len(to.Problems)+len(tn.Problems) > 0 {
-					k.Violation("behaviour-differs", fmt.Sprintf("script %s state %d: optimized and unoptimized outputs behave differently\n optimized:   %s\n unoptimized: %s", s.Entry, si, strings.Join(a, " ; "), strings.Join(b, " ; ")), det)
-					return
-				}
-			}
-			if sh := shapeOfBlock(s.Body); len(sh) > 4 {
-				k.Nontrivial(sh)
-			}
-		}
-		k.Count("gotos_optimized", int64(gotoO))
-		k.Count("gotos_unoptimized", int64(gotoN))
-		if ro.Out != rn.Out {
-			k.Count("pairs_with_different_layout", 1)
-		}
-		k.Sample("pair", map[string]interface{}{"source": pr.Src})
+		c05Eval(k, prog, pr.Src, g.Cands(), ctx.N(6, 16))
 	})
 	rejectGuard(ctx, 0.35)
 	return ctx.Finish(
 		"whole files compiled twice (optimize on/off). Oracle: same acceptance/error; non-script parts identical; same user-visible labels with the same colon count; per script the multiset of instructions other than goto is identical; VM traces (tests, commands, terminal) from every script entry incl. inline map scripts equal under the same states; in either output no generated goto is followed by its own target label and every generated sub-label is referenced. distinct = distinct script body signature",
 		ctx.N(500, 5000),
 		[]string{"the first non-blank, non-marker line after a goto is taken as 'the very next line'", "a goto whose target the author wrote as goto(X) is not compiler-generated"})
+}
+
+// c05Eval applies the whole C05 oracle to one program text. It draws no
+// randomness, so it can be re-run on a reduced program while shrinking.
+func c05Eval(k *h.Case, prog *spec.Program, src string, cands []int, nStates int) {
+	rp, rerr := spec.Resolve(prog, prog.Switches)
+	g := struct{ cands []int }{cands}
+	ro := h.Compile(src, optsOf(prog, true))
+	rn := h.Compile(src, optsOf(prog, false))
+	k.Count("evaluations", 2)
+	if ro.OK() != rn.OK() {
+		k.Violation("accept-differs", fmt.Sprintf("optimize=true: %q, optimize=false: %q", ro.ErrString(), rn.ErrString()), nil)
+		return
+	}
+	if !ro.OK() {
+		k.Count("rejected", 1)
+		if ro.ErrString() != rn.ErrString() {
+			k.Violation("error-differs", fmt.Sprintf("errors differ: optimize=true %q, optimize=false %q", ro.ErrString(), rn.ErrString()), nil)
+		}
+		return
+	}
+	if rerr != nil {
+		return
+	}
+	k.Count("accepted", 1)
+	vo, err1 := viewOf(rp, ro.Out)
+	vn, err2 := viewOf(rp, rn.Out)
+	if err1 != nil || err2 != nil {
+		k.Violation("entry-label", fmt.Sprintf("%v / %v", err1, err2), map[string]interface{}{"optimized": ro.Out, "unoptimized": rn.Out})
+		return
+	}
+	det := map[string]interface{}{"optimized": ro.Out, "unoptimized": rn.Out}
+	// (b) data and user-visible labels
+	if a, b := vo.nonScriptText(), vn.nonScriptText(); a != b {
+		k.Violation("data-differs", "text/movement/mart/map-script tables/raw differ between optimize on and off", det)
+		return
+	}
+	if a, b := userVisibleLabels(vo, rp), userVisibleLabels(vn, rp); !eqStrings(a, b) {
+		k.Violation("labels-differ", fmt.Sprintf("user-visible labels differ: optimized %v, unoptimized %v", a, b), det)
+		return
+	}
+	// (d), (e)
+	if !redundancyCheck(k, rp, vo, ro.Out, "optimize=true") || !redundancyCheck(k, rp, vn, rn.Out, "optimize=false") {
+		return
+	}
+	gotoO, gotoN := 0, 0
+	for _, s := range scriptsOf(rp) {
+		so, sn := vo.secs[s.Entry], vn.secs[s.Entry]
+		// (c)
+		if a, b := instrMultiset(vo, so), instrMultiset(vn, sn); !eqStrings(a, b) {
+			k.Violation("instr-multiset", fmt.Sprintf("script %s: instructions other than goto differ between optimize on and off\n optimized:   %v\n unoptimized: %v", s.Entry, a, b), det)
+			return
+		}
+		for i := so.Start; i < so.End; i++ {
+			if vo.f.Lines[i].Op == "goto" {
+				gotoO++
+			}
+		}
+		for i := sn.Start; i < sn.End; i++ {
+			if vn.f.Lines[i].Op == "goto" {
+				gotoN++
+			}
+		}
+		// (a) behaviour
+		ut := userTargetsOf(rp)
+		vmo := &asm.VM{F: vo.f, Sec: so, UserTargets: ut}
+		vmn := &asm.VM{F: vn.f, Sec: sn, UserTargets: ut}
+		for si := 0; si < nStates; si++ {
+			st := &ref.HashState{Seed: h.Hash64(k.C.Seed, k.Sub, k.Index, s.Entry, si), Cands: g.cands}
+			to, tn := vmo.Run(st), vmn.Run(st)
+			k.Count("vm_runs", 2)
+			a, b := normFull(to), normFull(tn)
+			if !eqStrings(a, b) || len(to.Problems)+len(tn.Problems) > 0 {
+				k.Violation("behaviour-differs", fmt.Sprintf("script %s state %d: optimized and unoptimized outputs behave differently\n optimized:   %s\n unoptimized: %s", s.Entry, si, strings.Join(a, " ; "), strings.Join(b, " ; ")), det)
+				return
+			}
+		}
+		if sh := shapeOfBlock(s.Body); len(sh) > 4 {
+			k.Nontrivial(sh)
+		}
+	}
+	k.Count("gotos_optimized", int64(gotoO))
+	k.Count("gotos_unoptimized", int64(gotoN))
+	if ro.Out != rn.Out {
+		k.Count("pairs_with_different_layout", 1)
+	}
+	k.Sample("pair", map[string]interface{}{"source": src})
 }
